@@ -174,3 +174,111 @@ func H_C09_brokenTarget() {
 	_, err2 := hxExec(set, "/main.jet", nil, nil)
 	vfAssert(err2 != nil, "... also when asked again")
 }
+
+// H_C09_sites: an include / exec / includeIfExists call - with and without an explicit
+// context, its template name written as an absolute literal, computed, or (include only)
+// relative to the including file - placed at the top level, in a range body, a block with
+// its own context, the content of a yield, a try body, and inside another included
+// template in a sub-directory (relative name resolved against that file): the target sees
+// the includer's variables and blocks and the given (else the site's current) context;
+// afterwards '.' is the site's again and nothing the target declared is visible.
+//
+//gosym:reach include,exec,ifexists
+func H_C09_sites() {
+	kind := ndChoice("kind", 3)
+	withCtx := ndBool("ctx")
+	nameForm := ndChoice("name", 3) // 0 absolute literal, 1 computed, 2 relative (include only)
+	site := ndChoice("site", 6)
+	v := ndString("v", 1)
+	vfAssume(kind == 0 || nameForm != 2)
+	target := "i.jet"
+	if kind == 1 {
+		target = "e.jet"
+	}
+	var name string
+	switch nameForm {
+	case 0:
+		name = `"/sub/` + target + `"`
+	case 1:
+		name = `"/sub/" + fname`
+	default:
+		name = `"sub/` + target + `"`
+		if site == 5 {
+			name = `"./` + target + `"` // the call lives in /sub/mid.jet
+		}
+	}
+	ctxArg := ""
+	var call string
+	switch kind {
+	case 0:
+		if withCtx {
+			ctxArg = ` "C"`
+		}
+		call = `{{ include ` + name + ctxArg + ` }}`
+	case 1:
+		if withCtx {
+			ctxArg = `, "C"`
+		}
+		call = `[{{ exec(` + name + ctxArg + `) }}]`
+	default:
+		if withCtx {
+			ctxArg = `, "C"`
+		}
+		call = `{{ if includeIfExists(` + name + ctxArg + `) }}Y{{ end }}{{ if includeIfExists("/sub/nope.jet") }}Z{{ end }}`
+	}
+	probe := `({{ . }}{{ isset(leak) }})`
+	dot := "D"
+	var body string
+	switch site {
+	case 0:
+		body = call + probe
+	case 1:
+		body, dot = `{{ range r }}`+call+probe+`{{ end }}`, "e"
+	case 2:
+		body, dot = `{{ block bb() "B" }}`+call+probe+`{{ end }}`, "B"
+	case 3:
+		body = `{{ yield wrap() content }}` + call + probe + `{{ end }}`
+	case 4:
+		body = `{{ try }}` + call + probe + `{{ end }}`
+	default:
+		body = `{{ include "/sub/mid.jet" }}`
+	}
+	set := hxSet([]Option{WithSafeWriter(nil)},
+		"/lib.jet", `{{ block wrap() }}<{{ yield content }}>{{ end }}`,
+		"/main.jet", `{{ import "/lib.jet" }}{{ block own() }}O{{ end }}{{ v2 := v }}`+body+`|{{ . }}{{ isset(leak) }}`,
+		"/sub/mid.jet", `M`+call+probe,
+		"/sub/i.jet", `I[{{ . }}|{{ v2 }}|{{ yield own() }}]{{ leak := 1 }}`,
+		"/sub/e.jet", `noise{{ leak := 1 }}{{ return . + v2 + "R" }}more`,
+	)
+	vars := make(VarMap)
+	vars.Set("v", v)
+	vars.Set("fname", target)
+	vars.Set("r", []string{"e"})
+	out, err := hxExec(set, "/main.jet", vars, "D")
+	vfAssert(err == nil, "renders")
+	ctx := dot
+	if withCtx {
+		ctx = "C"
+	}
+	var want string
+	switch kind {
+	case 0:
+		vfReach("include")
+		want = "I[" + ctx + "|" + v + "|O]"
+	case 1:
+		vfReach("exec")
+		want = "[" + ctx + v + "R]"
+	default:
+		vfReach("ifexists")
+		want = "I[" + ctx + "|" + v + "|O]Y"
+	}
+	want += "(" + dot + "false)"
+	switch site {
+	case 3:
+		want = "<" + want + ">"
+	case 5:
+		want = "M" + want
+	}
+	vfNote(out)
+	vfAssert(out == "O"+want+"|Dfalse", "the call renders / evaluates as documented at this site and leaks nothing back")
+}
